@@ -1251,6 +1251,27 @@ theorem validateRun_synced (fx : Fixes) (env : Env) (fuel : Nat) :
       have := validateStep_persisted fx env s (s.2.take env.pollMax) h
       intro _; exact this.2
 
+/-- the retry worker never persists; whatever it changes in the cache it marks dirty. -/
+theorem retryRun_synced (fx : Fixes) (st : St) (fs : List RFile) (fl : List (Name × Fault)) (h : Synced st) :
+    Synced (retryRun fx st fs fl).1 := by
+  unfold retryRun
+  simp only
+  apply runLoop_inv (retryOne fx) (fun t => Synced t.1) fs _ (st, fl) h
+  intro t f _ ht
+  rcases retryOne_cases fx t f with ⟨h', _⟩ | ⟨c, hc, _, _, h'⟩ | ⟨c, _, _, _, h'⟩ | ⟨c, hh, hc, _, _, h'⟩
+  · rw [h']; exact ht
+  · rw [h']
+    simp only
+    unfold St.cacheDone
+    split
+    · exact ht
+    · split
+      · exact ht
+      · intro hd; simp at hd
+  · rw [h']; exact ht
+  · rw [h', (retryRequeue_eq fx t.1 f c hh hc).1]
+    intro hd; simp at hd
+
 /-- along every run the persisted cache is the in-memory cache whenever nothing is pending. -/
 theorem synced_reach (fx : Fixes) (env : Env) (st0 : St) (h0 : Synced st0) :
     ∀ st, Reach fx env st0 st → Synced st := by
@@ -1264,6 +1285,7 @@ theorem synced_reach (fx : Fixes) (env : Env) (st0 : St) (h0 : Synced st0) :
     | validate fs fuel => exact validateRun_synced fx env fuel (st, fs) ih
     | restart k => intro _; rfl
     | world => exact ih
+    | retry fs fl => exact retryRun_synced fx st fs fl ih
 
 /-- a crash right after a scan or after a processed poll batch loses nothing the step decided:
     the restarted process loads exactly the cache the step left. -/
